@@ -353,7 +353,10 @@ func GenProgram(pid int, allow Allow) *rapid.Generator[*Program] {
 		p.JsonOmitEmpty = rapid.IntRange(0, 3).Draw(rt, "jsonOmitEmpty") == 0
 		p.DispatchReporter = rapid.IntRange(0, 3).Draw(rt, "dispatchReporter") == 0
 		p.ModuleUpper = rapid.IntRange(0, 3).Draw(rt, "moduleUpper") == 0
-		shape := rapid.IntRange(0, 3).Draw(rt, "shape")
+		// the file/module layout cycles with the program number, so that every run with four
+		// or more programs has each layout (a drawn layout left 1 run in 6 without a
+		// two-modules-in-one-file program)
+		shape := (pid + rapid.IntRange(0, 0).Draw(rt, "shape")) % 4
 		base := fmt.Sprintf("q%d", pid)
 		switch shape {
 		case 0: // one file, one module
